@@ -12,7 +12,7 @@ def rng(salt=""):
 
 
 def case_key(case):
-    return evidence.sha({k: case.get(k) for k in ("sql", "dialect", "metadata", "silent", "config", "env", "provider")})
+    return evidence.sha({k: case.get(k) for k in ("sql", "dialect", "metadata", "silent", "config", "env", "provider", "file_path")})
 
 
 def brief(case):
